@@ -185,6 +185,18 @@ pub fn gen(out: &mut dyn Write, family: &str, thorough: bool, seed: u64) {
             }
         }
         "C11" => {
+            // windows of 8 and more (short n-grams stop fitting the fixed 8-entry layout) with n-grams that only occur at
+            // sentence ends in training and at the very start of the texts to segment
+            for (k, (cw, tw)) in [(8u8, 2u8), (9, 9), (12, 8), (2, 8)].into_iter().enumerate() {
+                let c = TrCase {
+                    cw, cn: 1 + (k % 2) as u8, tw, tn: 1, ml: 2, solver: [1u8, 5, 6, 0][k % 4],
+                    dict: vec![], tagdict: vec![],
+                    corpus: (0..6).map(|_| ('t', format!("{} 。", tok_line(&mut r, 12, &['a', 'b', 'あ', '漢'])))).collect(),
+                    eval: vec!["。ab".into(), "。".into(), "。。あ漢ab。".into(), "a。".into()],
+                    trace: None,
+                };
+                writeln!(out, "{}", c.to_line(oracle)).unwrap();
+            }
             // dictionary words of 255, 256, 257 characters that occur in the corpus
             for len in [255usize, 256, 257] {
                 let w: String = (0..len).map(|i| ['a', 'b'][i % 2]).collect();
